@@ -31,6 +31,7 @@ from pyvc.sym import EngineError
 from specs import evm_word as W
 
 loader.import_repo()
+import halmos.__main__ as hm  # noqa: E402
 import halmos.sevm as hs  # noqa: E402
 import halmos.solve as hsolve  # noqa: E402
 import halmos.utils as hu  # noqa: E402
@@ -388,9 +389,9 @@ class RecFile:
 
 def dump_cases():
     out = []
-    for cache in (False, True):
+    for cache, refined in ((False, False), (True, False), (False, True), (True, True)):
 
-        def harness(interp, cache=cache):
+        def harness(interp, cache=cache, refined=refined):
             ctx = interp.ctx
             f = RecFile()
             q = hs.SMTQuery("QUERY", ["7", "42"])
@@ -402,6 +403,7 @@ def dump_cases():
             pc.args = config(cache_solver=True) if cache else config()
             pc.query = q
             pc.dump_file = f
+            pc.is_refined = refined  # a refined query keeps the tracked implications: it needs its named assertions too
             interp.call(hsolve.dump, [pc], {})
             if cache:
                 want = "(set-option :produce-unsat-cores true)\n(set-logic QF_AUFBV)\nQUERY\n(assert (! |7| :named <7>))\n(assert (! |42| :named <42>))\n(check-sat)\n(get-model)\n(get-unsat-core)\n"
@@ -409,8 +411,40 @@ def dump_cases():
                 want = "(set-logic QF_AUFBV)\nQUERY\n(check-sat)\n(get-model)\n"
             ctx.oblige("file-text-structure", z3.BoolVal(f.text == want), info={"got": str(f.text)[:300]})
 
-        out.append(Case(f"{PROP}/solve.dump", f"cache={cache}", harness, sources=("halmos.solve:dump",)))
+        out.append(Case(f"{PROP}/solve.dump", f"cache={cache}" + (",refined" if refined else ""), harness, replay=replay_dump_refined, sources=("halmos.solve:dump",)))
     return out
+
+
+def replay_dump_refined(r):
+    """real Path.to_smt2 + refine + dump under --cache-solver, solved by z3: an infeasible path must stay unsat"""
+    import os
+    import subprocess
+    import tempfile
+
+    args = config(cache_solver=True)
+    p = hs.Path(hm.mk_solver(args))
+    x = z3.BitVec("x", 256)
+    p.append(z3.ULT(x, 5))
+    p.append(z3.UGT(x, 7))
+    q = p.to_smt2(args)
+    for refined in (False, True):
+        with tempfile.TemporaryDirectory() as d:
+            fpath = os.path.join(d, "q.smt2")
+
+            class F:
+                def write_text(self, t):
+                    open(fpath, "w").write(t)
+
+            class PC:
+                pass
+
+            pc = PC()
+            pc.args, pc.query, pc.dump_file, pc.is_refined = args, (hsolve.refine(q) if refined else q), F(), refined
+            hsolve.dump(pc)
+            out = subprocess.run(["z3", fpath], capture_output=True, text=True, timeout=60).stdout
+            if out.strip().splitlines()[:1] != ["unsat"]:
+                return {"reproduced": True, "detail": f"path conditions x < 5 and x > 7 under --cache-solver, {'refined' if refined else 'first'} query written by the real dump(): z3 answers {out.strip().splitlines()[:1]} (the tracked implications are not bound by named assertions)", "inputs": "Path(x<5, x>7).to_smt2 -> refine -> dump"}
+    return {"reproduced": False, "detail": "first and refined query files of an infeasible path are unsat under --cache-solver"}
 
 
 def refine_ctx_cases():
